@@ -19,6 +19,15 @@ use std::io::{BufWriter, Write};
 #[global_allocator]
 static GLOBAL: Counting = Counting;
 
+/// The call about to be made, written to the file named by DRIVE_PROGRESS *before* it is made:
+/// if the process dies in the call (an abort is not an unwinding panic) the driver's caller
+/// attributes the death to that call.
+fn pending(ev: &serde_json::Value) {
+	if let Ok(p) = std::env::var("DRIVE_PROGRESS") {
+		let _ = std::fs::write(p, format!("{ev}\n"));
+	}
+}
+
 const SCHEMES: &[&str] = &["s", "http", "a+b.c-d", "urn", "svn+ssh", "x-1.2"];
 const USERS: &[&str] = &["", "u", "%75", "u:p", "%40", "é", "a;b=c", "~", "%7E", "service-account-with-a-long-name-0123456789", "ééééééééééééééééé"];
 const HOSTS: &[&str] = &["", "h", "%68", "ex%61mple.org", "caf%C3%A9.x", "café.x", "[v1.é]", "example.org", "1.2.3.4", "[::1]", "[1:2::3.4.5.6]", "[v7.a:b]", "%41", "é.x", "xn--e"];
@@ -46,7 +55,11 @@ fn gen_authority(r: &mut StdRng) -> String {
 }
 
 fn gen_path(r: &mut StdRng, abs: bool) -> String {
-	let n = if r.gen_bool(0.1) { r.gen_range(15..40) } else { r.gen_range(0..5) };
+	// mostly short; sometimes beyond 16 segments; sometimes beyond 512 bytes (the inline buffers)
+	// mostly short; sometimes beyond 16 segments; now and then beyond 512 bytes (the inline buffers),
+	// made of long segments so that the text stays cheap for TLC to judge
+	const LONG: &[&str] = &["longer-segment-name-0123456789", "another.long~segment_ABCDEFGHIJKLMNOP", "ééééééééééééééé", "%2E%2E-is-not-a-dot-segment", "x;p=1;q=2;r=3;s=4;t=5"];
+	let (n, long) = match r.gen_range(0..100) { 0..=6 => (r.gen_range(15..40), false), 7..=9 => (r.gen_range(24..32), true), _ => (r.gen_range(0..5), false) };
 	let mut p = String::new();
 	if abs {
 		p.push('/');
@@ -55,7 +68,11 @@ fn gen_path(r: &mut StdRng, abs: bool) -> String {
 		if i > 0 {
 			p.push('/');
 		}
-		p.push_str(pick(r, SEGS));
+		if long && !r.gen_bool(0.25) {
+			p.push_str(pick(r, LONG));
+		} else {
+			p.push_str(pick(r, SEGS));
+		}
 	}
 	p
 }
@@ -226,7 +243,7 @@ fn enc_opt(s: Option<&str>) -> serde_json::Value {
 fn main_parse(args: &[String]) {
 	let seed: u64 = args[2].parse().expect("seed");
 	let n: usize = args[3].parse().expect("n");
-	let mut out = BufWriter::new(File::create(&args[4]).expect("create events"));
+	let mut out = std::io::LineWriter::new(File::create(&args[4]).expect("create events"));
 	let mut r = StdRng::seed_from_u64(seed);
 	let mut count = 0u64;
 	for i in 0..n {
@@ -303,6 +320,8 @@ macro_rules! path_session {
 			};
 			let Ok(seg) = iref::$m::Segment::new(arg.as_str()) else { continue };
 			let segs: Vec<&iref::$m::Segment> = match args.iter().map(|s| iref::$m::Segment::new(s.as_str())).collect::<Result<Vec<_>, _>>() { Ok(v) => v, Err(_) => continue };
+			pending(&json!({"ev": "call_path", "op": op, "arg": enc(&arg), "args": args.iter().map(|a| enc(a)).collect::<Vec<_>>(),
+				"view": [], "panic": true, "msg": "process aborted in this call or in reading the handle afterwards"}));
 			let res = guard(|| {
 				match op {
 					"push" => $pm.push(seg),
@@ -341,6 +360,8 @@ macro_rules! auth_session {
 			if !valid {
 				continue;
 			}
+			pending(&json!({"ev": "call_auth", "op": op, "arg": match &arg { Some(a) => enc(a), None => json!([-1]) },
+				"view": [], "panic": true, "msg": "process aborted in this call or in reading the handle afterwards"}));
 			let res = guard(|| {
 				match op {
 					"set_userinfo" => am.set_userinfo(arg.as_deref().map(|x| iref::$m::UserInfo::new(x).unwrap())),
@@ -362,7 +383,7 @@ macro_rules! auth_session {
 fn main_sessions(args: &[String]) {
 	let seed: u64 = args[2].parse().expect("seed");
 	let n: usize = args[3].parse().expect("n");
-	let mut out = BufWriter::new(File::create(&args[4]).expect("create events"));
+	let mut out = std::io::LineWriter::new(File::create(&args[4]).expect("create events"));
 	let mut r = StdRng::seed_from_u64(seed);
 	let mut count = 0u64;
 	for i in 0..n {
@@ -420,9 +441,100 @@ fn main_sessions(args: &[String]) {
 	println!("{count}");
 }
 
+/// drive big <seed> <unused> <out>: very large inputs (beyond every inline buffer and beyond 64 KiB).
+/// What is recorded is structural (lengths, offsets, counts, "unchanged"), so that TLC can judge it
+/// without evaluating the specification on a megabyte of text.
+fn main_big(args: &[String]) {
+	use iref_verif_harness::alloc_count::allocs;
+	let mut out = std::io::LineWriter::new(File::create(&args[4]).expect("create events"));
+	let mut count = 0u64;
+	for (n, seglen) in [(20usize, 10usize), (17, 40), (700, 100), (300, 3), (10000, 100)] {
+		let seg: String = "abcdefghij".chars().cycle().take(seglen).collect();
+		let mut path = String::new();
+		for _ in 0..n {
+			path.push('/');
+			path.push_str(&seg);
+		}
+		for fam in ["iri", "uri"] {
+			// ---- a dot-free path is a fixed point of normalisation, whatever its size
+			pending(&json!({"ev": "big_path", "fam": fam, "n": n, "seglen": seglen, "panic": true, "msg": "process aborted"}));
+			let r = guard(|| {
+				if fam == "iri" {
+					let p = iref::iri::Path::new(path.as_str()).unwrap();
+					let copy_same = p.normalized().as_str() == path;
+					let mut b = p.to_owned();
+					b.normalize();
+					let inplace_same = b.as_str() == path;
+					let nseg = p.normalized_segments().len();
+					let a0 = allocs();
+					let cnt = p.segments().count();
+					let back = p.segments().rev().count();
+					let _ = (p.first(), p.last(), p.file_name(), p.directory(), p.parent(), p.is_empty());
+					let al = allocs() - a0;
+					(copy_same, inplace_same, nseg, cnt, back, al)
+				} else {
+					let p = iref::uri::Path::new(path.as_str()).unwrap();
+					let copy_same = p.normalized().as_str() == path;
+					let mut b = p.to_owned();
+					b.normalize();
+					let inplace_same = b.as_str() == path;
+					let nseg = p.normalized_segments().len();
+					let a0 = allocs();
+					let cnt = p.segments().count();
+					let back = p.segments().rev().count();
+					let _ = (p.first(), p.last(), p.file_name(), p.directory(), p.parent(), p.is_empty());
+					let al = allocs() - a0;
+					(copy_same, inplace_same, nseg, cnt, back, al)
+				}
+			});
+			let ev = match r {
+				Ok((c, i, ns, cnt, back, al)) => json!({"ev": "big_path", "fam": fam, "n": n, "seglen": seglen, "panic": false,
+					"copy_unchanged": c, "inplace_unchanged": i, "normalized_len": ns, "count": cnt, "count_back": back, "allocs": al}),
+				Err(m) => json!({"ev": "big_path", "fam": fam, "n": n, "seglen": seglen, "panic": true, "msg": m}),
+			};
+			writeln!(out, "{ev}").unwrap();
+			count += 1;
+			// ---- a large reference: borrowed parsing and access allocate nothing, ranges tile the input
+			let text = format!("s://h{path}?q#f");
+			pending(&json!({"ev": "big_ref", "fam": fam, "len": text.len(), "panic": true, "msg": "process aborted"}));
+			let r = guard(|| {
+				let tb = text.as_bytes();
+				let off = |x: &[u8]| -> (usize, usize) { ((x.as_ptr() as usize).wrapping_sub(tb.as_ptr() as usize), x.len()) };
+				if fam == "iri" {
+					let a0 = allocs();
+					let v = iref::iri::Iri::new(text.as_str()).unwrap();
+					let p = v.parts();
+					let r = (off(v.scheme().as_bytes()), off(v.authority().unwrap().as_bytes()), off(v.path().as_bytes()),
+						off(v.query().unwrap().as_bytes()), off(v.fragment().unwrap().as_bytes()), off(p.path.as_bytes()), off(v.base().as_bytes()));
+					(r, allocs() - a0)
+				} else {
+					let a0 = allocs();
+					let v = iref::uri::Uri::new(text.as_str()).unwrap();
+					let p = v.parts();
+					let r = (off(v.scheme().as_bytes()), off(v.authority().unwrap().as_bytes()), off(v.path().as_bytes()),
+						off(v.query().unwrap().as_bytes()), off(v.fragment().unwrap().as_bytes()), off(p.path.as_bytes()), off(v.base().as_bytes()));
+					(r, allocs() - a0)
+				}
+			});
+			let ev = match r {
+				Ok(((s, a, p, q, f, pp, b), al)) => json!({"ev": "big_ref", "fam": fam, "len": text.len(), "plen": path.len(), "seglen": seglen, "panic": false,
+					"scheme": [s.0, s.1], "authority": [a.0, a.1], "path": [p.0, p.1], "query": [q.0, q.1], "fragment": [f.0, f.1],
+					"parts_path": [pp.0, pp.1], "base": [b.0, b.1], "allocs": al}),
+				Err(m) => json!({"ev": "big_ref", "fam": fam, "len": text.len(), "panic": true, "msg": m}),
+			};
+			writeln!(out, "{ev}").unwrap();
+			count += 1;
+		}
+	}
+	println!("{count}");
+}
+
 fn main() {
 	let args: Vec<String> = std::env::args().collect();
 	install_panic_hook();
+	if args.len() >= 5 && args[1] == "big" {
+		return main_big(&args);
+	}
 	if args.len() >= 5 && args[1] == "sessions" {
 		return main_sessions(&args);
 	}
@@ -436,7 +548,7 @@ fn main() {
 	let seed: u64 = args[1].parse().expect("seed");
 	let histories: usize = args[2].parse().expect("histories");
 	let steps: usize = args[3].parse().expect("steps");
-	let mut out = BufWriter::new(File::create(&args[4]).expect("create events"));
+	let mut out = std::io::LineWriter::new(File::create(&args[4]).expect("create events"));
 	let mut r = StdRng::seed_from_u64(seed);
 	let mut n_events = 0u64;
 	for h in 0..histories {
@@ -460,6 +572,8 @@ fn main() {
 				continue;
 			}
 			let pre = text.clone();
+			pending(&json!({"ev": "edit", "fam": fam, "kind": if full { "full" } else { "ref" }, "pre": enc(&pre), "op": op,
+				"arg": match &arg { Some(a) => enc(a), None => json!([-1]) }, "panic": true, "post": [], "msg": "process aborted in this call"}));
 			let result: Result<Option<Vec<u8>>, String> = if fam == "uri" {
 				if full {
 					let Ok(mut buf) = iref::uri::UriBuf::new(pre.clone().into_bytes()) else { break };
